@@ -218,6 +218,17 @@ def run_property(pid: str, tier: str = "quick", seed: int = 0) -> int:
         if not ok:
             syn_fail.append((name, detail))
 
+    # guard against a checker that silently lost targets (it happened once: DESIGN 9.4): every function this property's check
+    # verified when expected_functions.json was written must still be verified - or be absent from the tree (then the run is undecided)
+    try:
+        expected = json.loads((VERIF / "expected_functions.json").read_text()).get(pid, [])
+    except Exception:
+        expected = []
+    have = {f["function"] for f in functions}
+    lost = [q for q in expected if q not in have]
+    if lost:
+        return finish(3, f"the check no longer verifies {lost[:4]}{' ...' if len(lost) > 4 else ''} (expected_functions.json): machinery regression, not a verdict", {"functions": functions})
+
     obs = list(E.obligations.values())
     keep = getattr(spec, "keep", None)
     if keep is not None:
